@@ -48,6 +48,16 @@ import (
 //     follow-up) handshake is written to a blocked address again.
 // In every NEW state the same throw-away instance is additionally run to quiescence (FIFO, loss-free, with timer
 // ticks) with the same checks after every step.
+//
+// Hostmap maintenance (scenarios with maint=m): P (and, thorough, me) holds a certificate BUNDLE for one key, v1 {a} +
+// v2 {a,b}, so that crossing handshakes / version re-handshakes leave SIBLING tunnels to one peer whose certificates
+// list different address sets. The search starts from a scripted prefix (such a pair of tunnels, or one tunnel plus the
+// other handshake in flight) and adds the events tx / cm / pm / cl / rh (see c09Ev): traffic, connection-manager ticks
+// (swapPrimary, dead-tunnel deletion, re-handshake with the other certificate version), promotion of a non-primary
+// tunnel, tunnel close on either end, re-handshake. The same invariant is evaluated after each of them over EVERY
+// member of EVERY per-address list (a sibling re-filed under an address only the promoted / torn-down tunnel was
+// certified for is a violation), and each application packet is judged on the wire (it must leave in a tunnel whose
+// certificate lists its destination).
 
 const (
 	c09A     = "10.0.0.2"
@@ -76,7 +86,8 @@ type c09Scn struct {
 	// prefix (events as printed) executed, with every check, before the search starts: the search's start state.
 	Maint string
 	Pre   string
-	QD    int // quick tier: search depth below the prefix (0 = the default of the maintenance scenarios)
+	QD    int // search depth below the prefix in the quick tier (0 = the default of the maintenance scenarios) ...
+	TD    int // ... and in the thorough tier
 }
 
 func (s c09Scn) String() string {
@@ -103,13 +114,14 @@ type c09Ev struct {
 }
 
 // Hostmap-maintenance alphabet (scenarios with Maint): every event is a call of the real entry point.
-//   tx:<from>:<to>   application packet over an EXISTING tunnel (me:a me:b p:me p:me2); gives tunnels in/out traffic
-//   cm:<node>        +2.5 s and one connection-manager tick (traffic checks: test packets, dead-tunnel deletion,
-//                    swapPrimary of a non-primary tunnel that saw traffic, re-handshake with the other certificate version)
-//   pm:<node>#k      HostMap.MakePrimary of the node's k-th tunnel (creation order) while it is not primary everywhere
-//   cl:<node>#k      the node closes its k-th tunnel (sendCloseTunnel + closeTunnel); the peer tears its end down on receipt
-//   rh:<from>:<to>[:v2]  HandshakeManager.StartHandshake although a tunnel exists (re-handshake; :v2 = with the
-//                    initiatingVersionOverride the connection manager uses to move to the peer's certificate version)
+//
+//	tx:<from>:<to>   application packet over an EXISTING tunnel (me:a me:b p:me p:me2); gives tunnels in/out traffic
+//	cm:<node>        +2.5 s and one connection-manager tick (traffic checks: test packets, dead-tunnel deletion,
+//	                 swapPrimary of a non-primary tunnel that saw traffic, re-handshake with the other certificate version)
+//	pm:<node>#k      HostMap.MakePrimary of the node's k-th tunnel (creation order) while it is not primary everywhere
+//	cl:<node>#k      the node closes its k-th tunnel (sendCloseTunnel + closeTunnel); the peer tears its end down on receipt
+//	rh:<from>:<to>[:v2]  HandshakeManager.StartHandshake although a tunnel exists (re-handshake; :v2 = with the
+//	                 initiatingVersionOverride the connection manager uses to move to the peer's certificate version)
 func (e c09Ev) String() string {
 	switch e.K {
 	case "hs", "tk", "tx", "cm", "rh":
@@ -1336,9 +1348,9 @@ func c09Scenarios(thorough bool) []c09Scn {
 		{PCert: "AO", Disc: "lh", Remote: "P", MeV: v2, PV: v2, Self: "S2"},
 		// P runs a certificate bundle v1 {a} + v2 {a,b} and initiates with v1; start state: my tunnel to P (v2 certificate, {a,b})
 		// is up on both sides while P's own v1 handshake to me is still in flight
-		{PCert: "A+AB", Disc: "static", Remote: "P", MeV: v2, PV: v1, Maint: "m", Pre: c09PreCrossing},
+		{PCert: "A+AB", Disc: "static", Remote: "P", MeV: v2, PV: v1, Maint: "m", Pre: c09PreCrossing, TD: 5},
 		// ... and: both tunnels complete on both sides (P's v1 tunnel primary for a, my v2 tunnel still primary for b)
-		{PCert: "A+AB", Disc: "static", Remote: "P", MeV: v2, PV: v1, Maint: "m", Pre: c09PreBoth, QD: 3},
+		{PCert: "A+AB", Disc: "static", Remote: "P", MeV: v2, PV: v1, Maint: "m", Pre: c09PreBoth, QD: 3, TD: 5},
 	}
 	if !thorough {
 		return quick
@@ -1378,7 +1390,7 @@ func c09Scenarios(thorough bool) []c09Scn {
 	add(c09Scn{PCert: "A", Disc: "static", Remote: "P", MeV: v1, PV: v1, Self: "S1"})
 	// hostmap maintenance over tunnels with divergent certificate address sets: from scratch, with me holding a bundle too
 	// (then P's tunnels to me diverge as well: v1 {my first address} / v2 {both}), and over equal sets (single v2 certificates)
-	add(c09Scn{PCert: "A+AB", Disc: "static", Remote: "P", MeV: v2, PV: v1, Maint: "m"})
+	add(c09Scn{PCert: "A+AB", Disc: "static", Remote: "P", MeV: v2, PV: v1, Maint: "m", TD: 6})
 	add(c09Scn{PCert: "A+AB", Disc: "static", Remote: "P", MeV: v1, PV: v2, MeCert: "dual", Maint: "m", Pre: c09PreCrossing})
 	add(c09Scn{PCert: "A+AB", Disc: "static", Remote: "P", MeV: v1, PV: v2, MeCert: "dual", Maint: "m", Pre: c09PreBoth})
 	add(c09Scn{PCert: "A+AB", Disc: "static", Remote: "P", MeV: v1, PV: v1, MeCert: "dual", Maint: "m", Pre: c09PreBoth})
@@ -1582,7 +1594,7 @@ func TestVerifC09(t *testing.T) {
 
 	depth := mc.Pick(c, 4, 7)
 	nDl, nDp, nDr := mc.Pick(c, 3, 4), mc.Pick(c, 1, 2), mc.Pick(c, 1, 2)
-	maintDepth := mc.Pick(c, 4, 5)
+	maintDepth := 4 // (the thorough tier has the wider menu: more in-flight datagrams, duplication, re-handshakes)
 	mDl, mDp, mDr := mc.Pick(c, 2, 3), mc.Pick(c, 0, 1), mc.Pick(c, 1, 1)
 	closed := map[string]bool{}
 	var closures int64
@@ -1643,8 +1655,8 @@ func TestVerifC09(t *testing.T) {
 					// the maintenance alphabet is wide: its scenarios start from a scripted prefix and are searched less deep
 					menu = nil
 					d := maintDepth
-					if !c.Thorough() && w.sc.QD > 0 {
-						d = w.sc.QD
+					if x := mc.Pick(c, w.sc.QD, w.sc.TD); x > 0 {
+						d = x
 					}
 					if len(hist)-1 < d {
 						menu = w.menu(mDl, mDp, mDr, c.Thorough())
